@@ -18,7 +18,8 @@ PID = 'C16'
 THEOREMS = ['C16_total_is_winners_losers_breakeven', 'C16_net_profit_is_gross_profit_plus_gross_loss', 'C16_longs_and_shorts_partition', 'C16_percentages_sum_to_100',
             'C16_win_rate_spec', 'C16_expectancy_is_net_profit_per_decided_trade', 'C16_largest_win_bounds', 'C16_max_drawdown_never_positive',
             'C16_streaks_are_longest_blocks', 'C16_largest_win_is_a_winner', 'C16_largest_loss_spec', 'C16_drawdown_is_distance_from_running_peak',
-            'C16_max_drawdown_is_one_of_the_drawdowns', 'C16_max_drawdown_range']
+            'C16_max_drawdown_is_one_of_the_drawdowns', 'C16_max_drawdown_range', 'C16_metrics_do_not_depend_on_order', 'C16_average_win_between',
+            'C16_average_loss_between']
 NAMES = ['total', 'total_winning_trades', 'total_losing_trades', 'win_rate', 'net_profit', 'net_profit_percentage', 'gross_profit', 'gross_loss', 'fee', 'longs_count',
          'shorts_count', 'longs_percentage', 'shorts_percentage', 'average_win', 'average_loss', 'expectancy', 'largest_winning_trade', 'largest_losing_trade',
          'winning_streak', 'losing_streak', 'current_streak', 'max_drawdown']
